@@ -137,6 +137,7 @@ func (w *World) SSA() *ssa.Program {
 	prog, _ := ssautil.AllPackages(w.allRootsList(), ssa.InstantiateGenerics)
 	prog.Build()
 	w.prog = prog
+	worldByProg.Store(prog, w)
 	w.ssaPkgs = map[string]*ssa.Package{}
 	for rel, p := range w.Pkgs {
 		w.ssaPkgs[rel] = prog.Package(p.Types)
